@@ -38,6 +38,42 @@ class Reject(Exception):
     pass
 
 
+def purify(fml):
+    """Replace every Int div/mod term by fresh quotient/remainder variables with their defining constraints
+    (n = q*d + r, 0 <= r < |d| for d != 0: z3's Euclidean semantics).  Equisatisfiable; z3's nonlinear engine does far better on this form."""
+    cache, side, cnt = {}, [], [0]
+
+    def qr(n, d):
+        key = (n.get_id(), d.get_id())
+        if key not in cache:
+            cnt[0] += 1
+            q, r = z3.Int(f"q!{cnt[0]}"), z3.Int(f"r!{cnt[0]}")
+            side.append(z3.Implies(d != 0, z3.And(n == q * d + r, r >= 0, z3.If(d > 0, r < d, r < -d))))
+            cache[key] = (q, r)
+        return cache[key]
+    memo = {}
+
+    def go(e):
+        i = e.get_id()
+        if i in memo:
+            return memo[i]
+        if z3.is_app(e) and e.num_args() > 0:
+            kids = [go(c) for c in e.children()]
+            k = e.decl().kind()
+            if k == z3.Z3_OP_IDIV and len(kids) == 2:
+                out = qr(kids[0], kids[1])[0]
+            elif k == z3.Z3_OP_MOD and len(kids) == 2:
+                out = qr(kids[0], kids[1])[1]
+            else:
+                out = e.decl()(*kids)
+        else:
+            out = e
+        memo[i] = out
+        return out
+    new = go(fml)
+    return z3.And(new, *side) if side else new
+
+
 TOK = re.compile(r'\s*(?:(/\*.*?\*/)|(//[^\n]*)|(0[xX][0-9a-fA-F]+[uUlL]*|\d+[uUlL]*)|([A-Za-z_]\w*)|("(?:\\.|[^"\\])*")|(<<=|>>=|\+\+|--|<<|>>|<=|>=|==|!=|&&|\|\||[-+*/%&|^]=|[-+*/%<>=!&|^~?:;,(){}\[\]]))', re.S)
 
 
@@ -410,6 +446,10 @@ class Exec:
         flo, fhi = TYPES[fromty]
         if flo >= lo and fhi <= hi:
             return v
+        if what == "cast" and lo == 0:
+            # an EXPLICIT cast to an unsigned type is C's modular conversion (well defined): value mod 2^w, no obligation
+            m = hi + 1
+            return (v % m) if not self.sym else (v % z3.IntVal(m))
         self.oblige(fn, "fits", f"{what}: value of type {fromty} fits {toty}", st, self.in_range(v, toty))
         return v
 
@@ -472,8 +512,10 @@ class Exec:
                     r = a * (2 ** n)
                     self.oblige(fn, "range", f"left shift by {n} stays in {rt}", st, self.in_range(r, rt))
                     return r, rt
-                self.oblige(fn, "range", "right shift of a non-negative value", st, a >= 0)
-                return A.tdiv(a, A.const(2 ** n)), rt
+                # arithmetic right shift: floor(a / 2^n) (C++20 [expr.shift]; gcc/clang for every earlier standard) -- also for negative a
+                if self.sym:
+                    return a / z3.IntVal(2 ** n), rt      # z3 Int division by a positive constant is floor division
+                return a // (2 ** n), rt
             rt = self.usual(ta, tb)
             if op in ("==", "!=", "<", "<=", ">", ">="):
                 if TYPES[rt][0] == 0:
@@ -576,21 +618,63 @@ class Exec:
         f = self.fns[name]
         if len(args) != len(f["params"]):
             raise Reject(f"{fn}: arity mismatch calling {name}")
-        vals = []
+        # arguments: plain expressions, or (directly) calls of other slices, evaluated left to right; a call argument may fork the state
+        partial = [([], st)]
         for a, (pt, pn) in zip(args, f["params"]):
-            v, t = self.ev(fn, a, st)
-            vals.append((self.convert(fn, v, t, pt, st, f"argument {pn} of {name}"), pt))
+            nxt = []
+            for vals0, s0 in partial:
+                if a[0] == "call" and a[1] in self.fns:
+                    for rv, rt, s1 in self.call(fn, a, s0):
+                        nxt.append((vals0 + [(self.convert(fn, rv, rt, pt, s1, f"argument {pn} of {name}"), pt)], s1))
+                else:
+                    v, t = self.ev(fn, a, s0)
+                    nxt.append((vals0 + [(self.convert(fn, v, t, pt, s0, f"argument {pn} of {name}"), pt)], s0))
+            partial = nxt
         if self.depth > 8:
             raise Reject("call depth")
-        self.depth += 1
-        outs = self.run(name, vals, st["pc"])
-        self.depth -= 1
         res = []
-        for rv, pc in outs:
-            s2 = self.copy(st)
-            s2["pc"] = pc
-            res.append((rv, f["ret"] if f["ret"] != "void" else "int", s2))
+        for vals, s0 in partial:
+            self.depth += 1
+            outs = self.run(name, vals, s0["pc"])
+            self.depth -= 1
+            for rv, pc in outs:
+                s2 = self.copy(s0)
+                s2["pc"] = pc
+                res.append((rv, f["ret"] if f["ret"] != "void" else "int", s2))
         return res
+
+    # ---- calls nested inside expressions are hoisted into temporaries in front of the statement (evaluation order kept; a call under
+    #      && || ?: would change semantics if hoisted, so that is rejected)
+    def _hoist(self, fn, e, tmps, guarded=False):
+        if not isinstance(e, tuple):
+            return e
+        if e[0] == "call" and e[1] in self.fns:
+            if guarded:
+                raise Reject(f"{fn}: call to {e[1]} under a short-circuit / conditional operator is outside the subset")
+            args = [self._hoist(fn, a, tmps, guarded) for a in e[2]]
+            self.tmpn = getattr(self, "tmpn", 0) + 1
+            name = f"__t{self.tmpn}"
+            rt = self.fns[e[1]]["ret"]
+            tmps.append(("decl", rt if rt != "void" else "int", name, ("call", e[1], args)))
+            return ("var", name)
+        if e[0] == "bin" and e[1] in ("&&", "||"):
+            return ("bin", e[1], self._hoist(fn, e[2], tmps, guarded), self._hoist(fn, e[3], tmps, True))
+        if e[0] == "ite":
+            return ("ite", self._hoist(fn, e[1], tmps, guarded), self._hoist(fn, e[2], tmps, True), self._hoist(fn, e[3], tmps, True))
+        return tuple(self._hoist(fn, x, tmps, guarded) if isinstance(x, tuple) else ([self._hoist(fn, y, tmps, guarded) for y in x] if isinstance(x, list) else x) for x in e)
+
+    def _has_nested_call(self, e, top=True):
+        if not isinstance(e, tuple):
+            return False
+        if e[0] == "call" and e[1] in self.fns and not top:
+            return True
+        kids = []
+        for x in e[1:]:
+            if isinstance(x, tuple):
+                kids.append(x)
+            elif isinstance(x, list):
+                kids.extend(y for y in x if isinstance(y, tuple))
+        return any(self._has_nested_call(x, False) for x in kids)
 
     def ex(self, fn, s, st):
         """execute statement on ONE state; returns list of successor states"""
@@ -598,6 +682,19 @@ class Exec:
         if st["done"] or st["brk"]:
             return [st]
         k = s[0]
+        # hoisting of nested calls (see _hoist)
+        if k == "decl" and s[3] is not None and (self._has_nested_call(s[3]) or (s[3][0] == "cast" and self._has_nested_call(s[3], False))):
+            tmps = []; ne = self._hoist(fn, s[3], tmps) if s[3][0] != "call" else ("call", s[3][1], [self._hoist(fn, a, tmps) for a in s[3][2]])
+            return self.ex(fn, ("block_noscope", tmps + [("decl", s[1], s[2], ne)]), st)
+        if k == "return" and s[1] is not None and s[1][0] != "call" and self._has_nested_call(s[1], False):
+            tmps = []; ne = self._hoist(fn, s[1], tmps)
+            return self.ex(fn, ("block_noscope", tmps + [("return", ne)]), st)
+        if k == "if" and self._has_nested_call(s[1], False):
+            tmps = []; ne = self._hoist(fn, s[1], tmps)
+            return self.ex(fn, ("block_noscope", tmps + [("if", ne) + tuple(s[2:])]), st)
+        if k == "expr" and s[1][0] == "assign" and s[1][3][0] != "call" and self._has_nested_call(s[1][3], False):
+            tmps = []; ne = self._hoist(fn, s[1][3], tmps)
+            return self.ex(fn, ("block_noscope", tmps + [("expr", ("assign", s[1][1], s[1][2], ne))]), st)
         if k in ("block", "block_noscope"):
             states = [st]
             for x in s[1]:
@@ -761,10 +858,20 @@ def main():
             assume = z3.And(*ex.assumes) if ex.assumes else z3.BoolVal(True)
             for ob in ex.obligations:
                 s = z3.Solver()
-                s.set("timeout", timeout_ms)
+                s.set("timeout", min(timeout_ms, 8000))
                 s.add(dom, assume, ob["pc"], z3.Not(ob["claim"]))
                 ts = time.time()
                 r = s.check()
+                if r == z3.unknown:
+                    # second attempt on the purified formula (div/mod as explicit quotient/remainder variables)
+                    s2 = z3.Solver(); s2.set("timeout", timeout_ms)
+                    s2.add(purify(z3.And(dom, assume, ob["pc"], z3.Not(ob["claim"]))))
+                    r2 = s2.check()
+                    if r2 == z3.unsat:
+                        r = r2
+                    else:
+                        s.set("timeout", timeout_ms)
+                        r = s.check()
                 dt = time.time() - ts
                 res["solver_s"] += dt
                 o = {"name": f"{lname}:{ob['name']}", "fn": ob["fn"], "kind": ob["kind"], "text": ob["text"], "s": round(dt, 3), "sample": ob["kind"] == "assert"}
